@@ -849,6 +849,12 @@ func (fr *Frame) rootOf(v ssa.Value) (alloc *ssa.Alloc, heapT types.Type, path s
 			v = x.X
 		case *ssa.ChangeType:
 			v = x.X
+		case *ssa.MakeInterface:
+			// a pointer boxed in an interface argument (json.Unmarshal(data, &x), Decode(&x)) still
+			// lets the callee write the local
+			v = x.X
+		case *ssa.ChangeInterface:
+			v = x.X
 		default:
 			return nil, nil, "", false
 		}
@@ -1241,6 +1247,14 @@ func constFuncGlobal(v ssa.Value) *ssa.Global {
 // argEffects: havocCall semantics: pointees / slice contents of direct args may change.
 func (fr *Frame) argEffects(cc *ssa.CallCommon, e *effects) {
 	for _, a := range cc.Args {
+		// a pointer boxed in an interface argument (Decode(&x), Unmarshal(data, &x)) is still a pointer
+		for {
+			if mi, ok := a.(*ssa.MakeInterface); ok {
+				a = mi.X
+				continue
+			}
+			break
+		}
 		switch t := a.Type().Underlying().(type) {
 		case *types.Pointer:
 			if _, ok := t.Elem().Underlying().(*types.Struct); ok && !stdOpaque(t.Elem()) && !isTimeType(t.Elem()) {
